@@ -52,7 +52,7 @@ def required_cells(tier):
             "dangling:same-name-two-dirs", "dangling:same-name-both-forms", "dangling:site-reached-by-2+-commands",
             "unknown-directive:live", "unknown-directive:dead", "benign-directive:dead", "db:missing-file", "db:unknown-compiler",
             "db:unknown-flags", "control:no-warnings", "totals-compared", "memo:failure-then-success-elsewhere",
-            "db:unknown-flags>80-characters", "dangling:below-depth>=64", "db:unknown-implicit-option-from-user-configuration", "header-is-a-compile-command", "log-file-cannot-be-created:refused", "db:entry-repeated-exactly", "unknown-directive:after-form-feed", "db:missing-forced-include"]
+            "db:unknown-flags>80-characters", "dangling:below-depth>=64", "db:unknown-implicit-option-from-user-configuration", "header-is-a-compile-command", "log-file-cannot-be-created:refused", "db:entry-repeated-exactly", "unknown-directive:after-form-feed", "db:missing-forced-include", "db:config-redefinition"]
 
 
 def is_dangling(name):
@@ -239,6 +239,8 @@ def judge(case, exp, warnings, root, db_expect):
             dbgot["missing-forced-include"] += 1
             mm = re.search(r"'([^']*)'", first)
             named["missing-forced-include"][os.path.basename(mm.group(1)) if mm else first] += 1
+        elif re.match(r"compiler (mode|pass) '.*' redefined", first):
+            dbgot["config-redefinition"] += 1
         elif first.startswith("Unrecognized arguments"):
             dbgot["unknown-flags"] += 1
             mm = re.match(r"Unrecognized arguments: '(.*)'$", first)
@@ -260,7 +262,7 @@ def judge(case, exp, warnings, root, db_expect):
     for site, n in dgot.items():
         if site not in known_sites:
             problems.append({"kind": "directive warning for a site that does not exist", "site": list(site)})
-    for k in ("missing-file", "unknown-compiler", "unknown-flags", "missing-forced-include"):
+    for k in ("missing-file", "unknown-compiler", "unknown-flags", "missing-forced-include", "config-redefinition"):
         if dbgot.get(k, 0) != db_expect.get(k, 0):
             problems.append({"kind": "database-level warnings", "category": k, "expected": db_expect.get(k, 0), "observed": dbgot.get(k, 0)})
     # each database-level warning names what could not be honoured: every unknown flag, the compiler, the file
@@ -372,6 +374,11 @@ def write_databases(case, base, rng, extras=True, implicit_unknown=False):
         os.makedirs(os.path.join(root, ".cbi"))
         with open(os.path.join(root, ".cbi", "config"), "w") as f:
             f.write('[compiler.gcc]\noptions = ["-DFROM_CONFIG=1", "-fmystery-option=7"]\n')
+            if len(case["tus"]) % 2 == 0:
+                # the user configuration also redefines a built-in mode: one warning while the compiler definitions are
+                # loaded -- counted, logged and reported like every other warning of the run
+                f.write('\n[[compiler.gcc.modes]]\nname = "openmp"\ndefines = ["_OPENMP=201511"]\n')
+                exp["config-redefinition"] += 1
     return "analysis.toml", exp
 
 
